@@ -18,6 +18,7 @@ import NanoVerif.Model.Sem
 import NanoVerif.Model.Sched
 import NanoVerif.Model.ColrSvg
 import NanoVerif.Model.Shape
+import NanoVerif.Model.ConfigFlow
 /-
 Correspondence driver.  One JSON object per input line: {"op": ..., ...}; one JSON object per
 output line.  Run: `lake env lean --run Driver.lean < ops.jsonl`.
@@ -243,6 +244,25 @@ def dispatch (op : String) (j : Json) : Except String Json := do
         | _ => .error "rule")
       let inputs ← (← getArr (← field j "inputs")).mapM getNats
       return obj [("out", Json.arr (inputs.map (fun i => Json.arr ((shapeLig rules (i.length + 1) i).map (fun g => jI (Int.ofNat g))).toArray)).toArray)]
+  | "config-flow" =>
+      -- symbolic run of the config path: values are strings, a conversion `c ≠ id` wraps its argument as `c(…)`
+      let present ← getStrs (← field j "file")
+      let flagged ← getStrs (← field j "flags")
+      let nodefault ← getStrs (← field j "nodefault")
+      let fields ← getStrs (← field j "fields")
+      let conv : String → String → String := fun c v => if c = "id" then v else c ++ "(" ++ v ++ ")"
+      let file : KV String := fun k => if present.contains k then some ("F:" ++ k) else none
+      let flags : KV String := fun k => if flagged.contains k then some ("G:" ++ k) else none
+      let dflt : Cfg String := fun k => if nodefault.contains k then none else some ("D:" ++ k)
+      let cfg := loadCfg Gen.CONFIG_LOAD_MAP conv dflt file flags
+      let cfgnone ← getStrs (← field j "cfgnone")
+      let sym : Cfg String := fun f => if cfgnone.contains f then none else some ("C:" ++ f)
+      let written := writeToml Gen.CONFIG_WRITE_MAP conv sym
+      let again := loadCfg Gen.CONFIG_LOAD_MAP conv dflt (writeToml Gen.CONFIG_WRITE_MAP conv cfg) (fun _ => none)
+      let show_ : Option String → Json := fun o => match o with | some v => Json.str v | none => Json.null
+      return obj [("load", Json.arr (fields.map (fun f => show_ (cfg f))).toArray),
+                  ("write", Json.arr (fields.map (fun f => show_ (written f))).toArray),
+                  ("again", Json.arr (fields.map (fun f => show_ (again f))).toArray)]
   | "regroup" =>
       let old ← getStrs (← field j "old")
       let groups ← (← getArr (← field j "groups")).mapM getStrs
